@@ -6,6 +6,7 @@ unclosed frontmatter: fmt(x, o) == x (+ final newline if missing), and formattin
 from __future__ import annotations
 
 import itertools
+import re
 
 from vf import core
 from vf.explorer import Outcome, Space
@@ -38,8 +39,16 @@ OPTS = [dict(width=88, semantic=False, cleanups=False), dict(width=10, semantic=
 
 
 def ref_split(text):
-    """Reference splitter -> (frontmatter_lines or None, body_text, closed)."""
-    lines = text.replace("\r\n", "\n").split("\n")
+    """Reference splitter -> (frontmatter_lines or None, body_text, closed).
+
+    The body is returned exactly as written (CRLF terminators kept): "formatted exactly as it would be without the
+    frontmatter" is a statement about the body text the author wrote, not about an LF-normalised copy of it."""
+    parts = re.split(r"(\r\n|\n)", text)          # [line, terminator, line, terminator, ..., last line]
+    lines = parts[0::2]
+    starts, pos = [], 0
+    for k, ln in enumerate(lines):
+        starts.append(pos)
+        pos += len(ln) + (len(parts[2 * k + 1]) if 2 * k + 1 < len(parts) else 0)
     i = 0
     while i < len(lines) and lines[i].strip(" \t") == "":
         i += 1
@@ -48,7 +57,7 @@ def ref_split(text):
     j = i + 1
     while j < len(lines):
         if lines[j].strip(" \t") == "---":
-            return lines[i:j + 1], "\n".join(lines[j + 1:]), True
+            return lines[i:j + 1], (text[starts[j + 1]:] if j + 1 < len(lines) else ""), True
         j += 1
     return lines[i:], "", False
 
